@@ -456,7 +456,11 @@ impl Font {
             write::write_xml_to_file(&metainfo_path, &self.meta, options)
                 .map_err(|source| FontWriteError::CustomFile { name: METAINFO_FILE, source })?;
         } else {
-            write::write_xml_to_file(&metainfo_path, &MetaInfo::default(), options)
+            let meta = MetaInfo {
+                format_version_minor: self.meta.format_version_minor,
+                ..MetaInfo::default()
+            };
+            write::write_xml_to_file(&metainfo_path, &meta, options)
                 .map_err(|source| FontWriteError::CustomFile { name: METAINFO_FILE, source })?;
         }
 
